@@ -1,16 +1,22 @@
-"""C15 (partial) - robust normalisation is finite and axis-consistent.
+"""C15 - robust normalisation is affine-equivariant, axis-consistent and never divides by zero.
 
-Decided (E3: the real functions run on numpy object arrays of symbolic reals; order statistics are
-uninterpreted functions of the ordered lane they are applied to, so "same lane" <=> "same term"):
+E3: the real functions run on numpy object arrays of symbolic reals; order statistics (median, percentile, k-th
+order statistic of sort/partition, std, cov, sqrt) are uninterpreted functions of the ordered lane they are
+applied to, constrained by a trusted contract (contract_instances) - so "same lane" <=> "same term".
+Decided:
   * utils.apply_along_axes hands every lane (resp. the flattened data) to the 1-D estimator and returns
     results in lane order with the right shape, for axis in {None, int, negative int, tuple};
   * estimate_loc (mean, median) and estimate_scale (std, iqr, mad, sn; and through apply_along_axes: qn,
     gapper, diffcov) computed along an axis equal the 1-D estimator on each lane, and over the whole array
     equal the estimator on the flattened data; keepdims results broadcast against the input;
-  * estimate_zscore never divides by zero: a (near-)zero scale is replaced by one.
-NOT decided: affine equivariance of the estimators (measured: z3 does not decide MAD/Sn/Qn through sorting
-networks at the minimum lane length of 8 within 120 s), the biweight (astropy internals) and doublemad's
-NaN masking, finiteness under float overflow."""
+  * estimate_zscore never divides by zero: a (near-)zero scale is replaced by one;
+  * affine equivariance for concrete a (both signs), symbolic b and symbolic data: loc(a*x+b) = a*loc(x)+b,
+    scale(a*x+b) = |a|*scale(x) for std, iqr, mad (incl. its mean-absolute-deviation fallback), doublemad
+    (NaN masking decided per path), sn, qn, gapper, diffcov - the real 1-D estimators run, only np.sort /
+    np.partition / np.cov / np.sqrt / np.median / np.percentile are contract stubs - and
+    zscore(a*x+b) = sign(a)*zscore(x) whenever the scale estimate is not degenerate.
+NOT decided: the biweight (astropy internals), finiteness under float32 overflow, and data whose scale estimate
+lies strictly between 0 and 1e-5 (np.isclose's threshold makes the fallback scale-dependent there)."""
 from __future__ import annotations
 
 import itertools
@@ -22,15 +28,109 @@ import z3
 from ..core import Ctx, Inconclusive, SBool, SReal, Unsupported, explore, rebind, wrap
 
 _uf = {}
+APPS = []          # every order-statistic application of the current path: (name, [arg terms], result term)
+
+
+def UFraw(name, vals):
+    key = (name, len(vals))
+    if key not in _uf:
+        _uf[key] = z3.Function(f"{name}_{len(vals)}", *([z3.RealSort()] * len(vals)), z3.RealSort())
+    return _uf[key](*vals)
 
 
 def UF(name, vals):
     vals = [wrap(v).e if not isinstance(v, z3.ExprRef) else v for v in vals]
     vals = [z3.ToReal(v) if v.sort() == z3.IntSort() else v for v in vals]
-    key = (name, len(vals))
-    if key not in _uf:
-        _uf[key] = z3.Function(f"{name}_{len(vals)}", *([z3.RealSort()] * len(vals)), z3.RealSort())
-    return SReal(_uf[key](*vals))
+    r = UFraw(name, vals)
+    APPS.append((name, vals, r))
+    if name in ("MEDIAN", "MEAN") and Ctx.cur is not None and vals:
+        # contract: a median / mean lies between the smallest and the largest element
+        Ctx.cur.assume(z3.And(z3.Or([x <= r for x in vals]), z3.Or([x >= r for x in vals])))
+    return SReal(r)
+
+
+NAN = float("nan")
+
+
+def isnan(v):
+    return isinstance(v, float) and v != v
+
+
+def fam(name):
+    i = len(name)
+    while i and name[i - 1].isdigit():
+        i -= 1
+    return name[:i], (int(name[i:]) if i < len(name) else None)
+
+
+def contract_instances(apps, cs, ds):
+    """Instances of the trusted order-statistic contract (exact arithmetic):
+         MEDIAN/MEAN(c*v+d) = c*MEDIAN/MEAN(v)+d (any c);  STD(c*v+d) = |c|*STD(v);
+         PCTLq(c*v+d) = c*PCTLq(v)+d (c>0), = c*PCTL(100-q)(v)+d (c<0);
+         KTHk(c*v+d) = c*KTHk(v)+d (c>0), = c*KTH(n-1-k)(v)+d (c<0)   [k-th order statistic: np.sort, np.partition];
+         COV(c*w) = c^2*COV(w);  SQRT(c^2*t) = |c|*SQRT(t);  min(v) <= MEDIAN/MEAN(v) <= max(v)."""
+    out = []
+    seen = set()
+    Q = lambda c: z3.RealVal(f"{c.numerator}/{c.denominator}")
+    for (n1, a1, r1) in apps:
+        f1, k1 = fam(n1)
+        key1 = (n1, tuple(x.get_id() for x in a1))
+        if f1 in ("MEDIAN", "MEAN") and key1 not in seen:
+            out.append(z3.And(z3.Or([x <= r1 for x in a1]), z3.Or([x >= r1 for x in a1])))
+        if key1 in seen:
+            continue
+        seen.add(key1)
+        seen2 = set()
+        for (n2, a2, r2) in apps:
+            f2, k2 = fam(n2)
+            key2 = (n2, tuple(x.get_id() for x in a2))
+            if f1 != f2 or len(a1) != len(a2) or key2 in seen2:
+                continue
+            seen2.add(key2)
+            for cf in cs:
+                c = Q(cf)
+                for d in ds:
+                    if f1 in ("COV", "SQRT") and d is not ds[0]:
+                        continue
+                    if f1 == "SQRT":
+                        pre = [a2[0] == Q(cf * cf) * a1[0]]
+                    elif f1 == "COV":
+                        pre = [y == c * x for x, y in zip(a1, a2)]
+                    else:
+                        pre = [y == c * x + d for x, y in zip(a1, a2)]
+                    pre = z3.simplify(z3.And(pre))
+                    if z3.is_false(pre):
+                        continue
+                    if f1 in ("MEDIAN", "MEAN"):
+                        post = r2 == c * r1 + d
+                    elif f1 == "STD":
+                        post = r2 == Q(abs(cf)) * r1
+                    elif f1 == "PCTL":
+                        if cf > 0:
+                            if k1 != k2:
+                                continue
+                            post = r2 == c * r1 + d
+                        else:
+                            post = r2 == c * UFraw(f"PCTL{100 - k2}", a1) + d
+                            if k1 != k2:
+                                continue
+                    elif f1 == "KTH":
+                        if cf > 0:
+                            if k1 != k2:
+                                continue
+                            post = r2 == c * r1 + d
+                        else:
+                            if k1 != k2:
+                                continue
+                            post = r2 == c * UFraw(f"KTH{len(a1) - 1 - k2}", a1) + d
+                    elif f1 == "COV":
+                        post = r2 == Q(cf * cf) * r1
+                    elif f1 == "SQRT":
+                        post = r2 == Q(abs(cf)) * r1
+                    else:
+                        continue
+                    out.append(z3.Implies(pre, post))
+    return out
 
 
 def obj(shape, name="x"):
@@ -100,13 +200,59 @@ class NPr:
     def squeeze(self, a):
         return np.squeeze(np.asarray(a, dtype=object))
 
+    exclude_band = False
+
     def isclose(self, a, b):
         a = np.asarray(a, dtype=object)
         out = np.empty(a.shape, dtype=object)
         for i in np.ndindex(a.shape):
+            if isnan(a[i]):
+                out[i] = SBool(z3.BoolVal(False))
+                continue
             t = wrap(a[i]).e - wrap(b).e
+            if NPr.exclude_band:
+                # equivariance harness: the scale estimate is exactly zero or clear of the isclose threshold
+                Ctx.cur.assume(z3.Or(t == 0, t >= z3.RealVal("1e-5"), t <= -z3.RealVal("1e-5")))
             out[i] = SBool(z3.And(t <= z3.RealVal("1e-8"), t >= -z3.RealVal("1e-8")))
+        NPr.isclose_log.append(out)
         return out if out.ndim else out[()]
+
+    isclose_log = []
+
+    def sqrt(self, a):
+        if isinstance(a, SReal):
+            r = UF("SQRT", [a])
+            Ctx.cur.assume(r.e >= 0)
+            return r
+        if isinstance(a, np.ndarray) and a.dtype == object:
+            out = np.empty(a.shape, dtype=object)
+            for i in np.ndindex(a.shape):
+                out[i] = self.sqrt(a[i])
+            return out
+        return np.sqrt(a)
+
+    def sort(self, a, axis=-1):
+        v = list(np.asarray(a, dtype=object).ravel())
+        assert np.asarray(a).ndim == 1
+        return np.array([UF(f"KTH{k}", v) for k in range(len(v))], dtype=object)
+
+    def partition(self, a, kth):
+        v = list(np.asarray(a, dtype=object).ravel())
+        assert np.asarray(a).ndim == 1
+        kth = int(kth)
+        return np.array([UF(f"KTH{kth}", v) if k == kth else UF(f"PARTOTHER{kth}x{k}x", v) for k in range(len(v))], dtype=object)
+
+    def cov(self, u, v):
+        u, v = list(np.asarray(u, dtype=object).ravel()), list(np.asarray(v, dtype=object).ravel())
+        out = np.empty((2, 2), dtype=object)
+        out[0, 0], out[0, 1], out[1, 0], out[1, 1] = UF("COV", u + u), UF("COV", u + v), UF("COV", v + u), UF("COV", v + v)
+        return out
+
+    def nanmedian(self, a, axis=None, keepdims=False):
+        return reduce_axis(a, axis, keepdims, lambda v: UF("MEDIAN", [x for x in v if not isnan(x)]) if any(not isnan(x) for x in v) else NAN)
+
+    def nanmean(self, a, axis=None, keepdims=False):
+        return reduce_axis(a, axis, keepdims, lambda v: UF("MEAN", [x for x in v if not isnan(x)]) if any(not isnan(x) for x in v) else NAN)
 
     def any(self, a):
         a = np.asarray(a, dtype=object)
@@ -117,8 +263,12 @@ class NPr:
         xb, yb = np.broadcast_to(np.asarray(x, dtype=object), c.shape), np.broadcast_to(np.asarray(y, dtype=object), c.shape)
         out = np.empty(c.shape, dtype=object)
         for i in np.ndindex(c.shape):
+            if isnan(xb[i]) or isnan(yb[i]):
+                # NaN masking (doublemad): which elements are masked is decided per path
+                out[i] = xb[i] if bool(c[i]) else yb[i]
+                continue
             xe, ye = wrap(xb[i]), wrap(yb[i])
-            out[i] = SReal(z3.If(c[i].e, xe.e if isinstance(xe, SReal) else z3.ToReal(xe.e), ye.e if isinstance(ye, SReal) else z3.ToReal(ye.e)))
+            out[i] = SReal(z3.If(wrap(c[i]).e, xe.e if isinstance(xe, SReal) else z3.ToReal(xe.e), ye.e if isinstance(ye, SReal) else z3.ToReal(ye.e)))
         return out if out.ndim else out[()]
 
     def zeros(self, n, dtype=None):
@@ -132,6 +282,7 @@ class NPr:
         return a
 
     divisions = []
+    numerators = []
 
     def subtract(self, a, b, dtype=None):
         return np.asarray(a, dtype=object) - np.asarray(b, dtype=object)
@@ -139,6 +290,7 @@ class NPr:
     def divide(self, a, b, out=None):
         b = np.asarray(b, dtype=object)
         NPr.divisions.append(b)
+        NPr.numerators.append(np.array(np.asarray(a, dtype=object), copy=True))
         r = np.asarray(a, dtype=object) / b
         if out is not None:
             out[...] = r
@@ -150,7 +302,13 @@ def differs(a, b):
     a, b = np.asarray(a, dtype=object), np.asarray(b, dtype=object)
     if a.shape != b.shape:
         return z3.BoolVal(True)
-    return z3.Or([wrap(x).e != wrap(y).e for x, y in zip(a.ravel(), b.ravel())] or [z3.BoolVal(False)])
+    cs = []
+    for x, y in zip(a.ravel(), b.ravel()):
+        if isnan(x) or isnan(y):
+            cs.append(z3.BoolVal(not (isnan(x) and isnan(y))))
+        else:
+            cs.append(wrap(x).e != wrap(y).e)
+    return z3.Or(cs or [z3.BoolVal(False)])
 
 
 def violation(P, name, params):
@@ -159,11 +317,19 @@ def violation(P, name, params):
     P.violation(name.replace(" ", "_").replace("[", "_").replace("]", "_").replace(",", "_").replace("=", "").replace("(", "").replace(")", "")[:100], name, src, model=params)
 
 
-def check(P, ctx, name, cond, params):
-    r = ctx.check(cond)
+def check(P, ctx, name, cond, params, axioms=()):
+    extra = [z3.And(list(axioms) + [cond])] if axioms else [cond]
+    r = ctx.check(*extra)
     if r == z3.unsat:
-        P.obligation(name, "holds", symbolic=True)
+        P.obligation(name, "holds", symbolic=True, **({"contract_instances": len(axioms)} if axioms else {}))
     else:
+        if params.get("kind") in ("equiv", "zequiv"):
+            m = ctx.solver.model()
+            n = params["n"]
+            def val(nm):
+                v = m.eval(z3.Real(nm), model_completion=True)
+                return float(v.numerator_as_long()) / float(v.denominator_as_long()) if z3.is_rational_value(v) else float(v.approx(12).as_fraction())
+            params = dict(params, x=[val(f"x_{i}") for i in range(n)], b=val("b"))
         violation(P, name, params)
 
 
@@ -183,14 +349,72 @@ def work(P, item):
         scale_fns[f"_scale_{m}"] = rebind(getattr(stats, f"_scale_{m}"), **dict(sub, **{f"_scale_{m}_1d": (lambda lane, m=m: UF(m.upper(), list(lane)))}))
     est_scale = rebind(stats.estimate_scale, np=npr, **scale_fns, _scale_doublemad=None, _scale_biweight=None)
     est_loc = rebind(stats.estimate_loc, np=npr)
+    # equivariance harness: the real 1-D estimators run too (sort/partition/cov/sqrt are the order statistics)
+    one_d_real = {m: rebind(getattr(stats, f"_scale_{m}_1d"), np=npr) for m in ("qn", "gapper", "diffcov")}
+    full = dict(scale_fns)
+    for m in ("qn", "gapper", "diffcov"):
+        full[f"_scale_{m}"] = rebind(getattr(stats, f"_scale_{m}"), **dict(sub, **{f"_scale_{m}_1d": one_d_real[m]}))
+    full["_scale_doublemad"] = rebind(stats._scale_doublemad, **sub)
+    est_scale_full = rebind(stats.estimate_scale, np=npr, **full, _scale_biweight=None)
+
+    def equiv_setup(n, a):
+        from fractions import Fraction
+        af = Fraction(*a)
+        A, b = SReal(z3.RealVal(f"{af.numerator}/{af.denominator}")), SReal(z3.Real("b"))
+        x = obj((n,))
+        y = np.array([A * v + b for v in x], dtype=object)
+        del APPS[:]
+        NPr.exclude_band = True
+        return af, A, b, x, y
 
     def run(ctx):
+        NPr.exclude_band = False
+        if kind == "equiv":
+            _, what, method, n, a = item
+            af, A, b, x, y = equiv_setup(n, a)
+            if what == "scale":
+                f = lambda v, m=method: est_scale_full(v, m, None)
+                sx, sy = f(x), f(y)
+                want = np.asarray(sx, dtype=object) * SReal(z3.RealVal(f"{abs(af).numerator}/{abs(af).denominator}"))
+            else:
+                sx, sy = est_loc(x, method, None), est_loc(y, method, None)
+                want = A * sx + b
+            ax = contract_instances(list(APPS), sorted({af, abs(af)}), [b.e, z3.RealVal(0)])
+            nm = f"equivariance[{what} {method}, n={n}, a={af}]: {what}(a*x+b) = " + ("|a|*scale(x)" if what == "scale" else "a*loc(x)+b")
+            return [(nm, differs(sy, want), dict(kind="equiv", what=what, method=method, n=n, a=[af.numerator, af.denominator]), ax)]
+        if kind == "zequiv":
+            _, lm, sm, n, a = item
+            af, A, b, x, y = equiv_setup(n, a)
+            NPr.divisions, NPr.numerators = [], []
+
+            class ZR:
+                def __init__(self, data, loc, scale):
+                    self.data, self.loc, self.scale = data, loc, scale
+            zf = rebind(stats.estimate_zscore, np=npr, estimate_loc=est_loc, estimate_scale=est_scale_full, ZScoreResult=ZR)
+            NPr.isclose_log = []
+            zx = zf(x, lm, sm, 0)
+            zlog_x = len(NPr.isclose_log) - 1
+            zy = zf(y, lm, sm, 0)
+            ax = contract_instances(list(APPS), sorted({af, abs(af)}), [b.e, z3.RealVal(0)])
+            params = dict(kind="zequiv", loc=lm, scale=sm, n=n, a=[af.numerator, af.denominator])
+            nm = f"equivariance[zscore {lm}/{sm}, n={n}, a={af}]"
+            if len(NPr.divisions) != 2:
+                return [(nm + ": exactly one division per call", z3.BoolVal(True), params, ())]
+            (nx, ny), (dx, dy) = NPr.numerators, NPr.divisions
+            dxb, dyb = np.broadcast_to(dx, (n,)), np.broadcast_to(dy, (n,))
+            absa = z3.RealVal(f"{abs(af).numerator}/{abs(af).denominator}")
+            # the unit-scale fallback (a zero scale estimate) is the degenerate case the property itself carves out
+            nofallback = z3.Not(z3.Or([wrap(v).e for v in np.asarray(NPr.isclose_log[zlog_x], dtype=object).ravel()]))
+            div_bad = z3.Or([z3.And(wrap(dyb[i]).e != absa * wrap(dxb[i]).e, wrap(nx[i]).e != 0) for i in range(n)])
+            return [(nm + ": numerator of a*x+b = a * numerator of x", differs(ny, nx * A), params, ax),
+                    (nm + ": divisor of a*x+b = |a| * divisor of x wherever the numerator is not zero (non-degenerate scale)", z3.And(nofallback, div_bad), params, ax),
+                    (nm + ": the z-scores returned are numerator/divisor", z3.Or(differs(zy.data, ny / dyb), differs(zx.data, nx / dxb)), params, ())]
         if kind == "apply":
             _, shape, axis = item
             x = obj(shape)
             got = aaa(lambda lane: UF("EST", list(lane)), x, axis)
             want = reduce_axis(x, axis, False, lambda v: UF("EST", v))
-            return [(f"apply_along_axes[shape={shape},axis={axis}]: each lane in order", differs(got, want), dict(kind="apply", shape=list(shape), axis=axis))]
+            return [(f"apply_along_axes[shape={shape},axis={axis}]: each lane in order", differs(got, want), dict(kind="apply", shape=list(shape), axis=axis), ())]
         if kind in ("scale", "loc"):
             _, method, shape, axis, keepdims = item
             x = obj(shape)
@@ -198,14 +422,14 @@ def work(P, item):
             got = f(x, method, axis, keepdims=keepdims)
             want = reduce_axis(x, axis, keepdims, lambda v: f(np.array(v, dtype=object), method, None))
             nm = f"estimate_{kind}[{method},shape={shape},axis={axis},keepdims={keepdims}]: equals the 1-D estimator on each lane / on the flattened data"
-            obl = [(nm, differs(got, want), dict(kind=kind, method=method, shape=list(shape), axis=axis, keepdims=keepdims))]
+            obl = [(nm, differs(got, want), dict(kind=kind, method=method, shape=list(shape), axis=axis, keepdims=keepdims), ())]
             if keepdims:
                 try:
                     np.broadcast_shapes(np.asarray(got, dtype=object).shape, shape)
                     ok = True
                 except ValueError:
                     ok = False
-                obl.append((nm + " (result broadcasts against the input)", z3.BoolVal(not ok), dict(kind=kind, method=method, shape=list(shape), axis=axis, keepdims=True)))
+                obl.append((nm + " (result broadcasts against the input)", z3.BoolVal(not ok), dict(kind=kind, method=method, shape=list(shape), axis=axis, keepdims=True), ()))
             return obl
         _, lm, sm, shape, axis = item
         x = obj(shape)
@@ -218,18 +442,18 @@ def work(P, item):
         nm = f"estimate_zscore[{lm},{sm},shape={shape},axis={axis}]"
         obl = []
         if len(NPr.divisions) != 1:
-            obl.append((nm + ": exactly one division", z3.BoolVal(True), dict(kind="zscore", loc=lm, scale=sm, shape=list(shape), axis=axis)))
+            obl.append((nm + ": exactly one division", z3.BoolVal(True), dict(kind="zscore", loc=lm, scale=sm, shape=list(shape), axis=axis), ()))
         else:
             d = NPr.divisions[0]
-            obl.append((nm + ": the divisor is never zero", z3.Or([wrap(v).e == 0 for v in d.ravel()]), dict(kind="zscore", loc=lm, scale=sm, shape=list(shape), axis=axis)))
-        obl.append((nm + ": z-scores have the input's shape", z3.BoolVal(np.asarray(zs.data, dtype=object).shape != shape), dict(kind="zscore", loc=lm, scale=sm, shape=list(shape), axis=axis)))
+            obl.append((nm + ": the divisor is never zero", z3.Or([wrap(v).e == 0 for v in d.ravel()]), dict(kind="zscore", loc=lm, scale=sm, shape=list(shape), axis=axis), ()))
+        obl.append((nm + ": z-scores have the input's shape", z3.BoolVal(np.asarray(zs.data, dtype=object).shape != shape), dict(kind="zscore", loc=lm, scale=sm, shape=list(shape), axis=axis), ()))
         return obl
 
     def on_path(ctx, obl):
         Ctx.cur = ctx
         P.reached += 1
-        for nm, c, params in obl:
-            check(P, ctx, nm, c, params)
+        for nm, c, params, ax in obl:
+            check(P, ctx, nm, c, params, ax)
         Ctx.cur = None
     try:
         explore(run, bound=4, on_path=on_path, stats=P.stats, deadline_s=300)
@@ -266,12 +490,30 @@ def run(R):
         for sm in ("std", "mad", "iqr", "sn", "norm"):
             for ax in (0, 1, None):
                 items.append(("zscore", lm, sm, shapes[0], ax))
+    avals = [(2, 1), (-3, 1)] if quick else [(2, 1), (-3, 1), (1, 100), (-100, 1), (-7, 5)]
+    nq = 5 if quick else 8
+    for a in avals:
+        for m in ("mean", "median"):
+            items.append(("equiv", "loc", m, nq, a))
+        for m in ("std", "iqr", "mad", "sn", "qn", "gapper", "diffcov"):
+            items.append(("equiv", "scale", m, nq, a))
+        items.append(("equiv", "scale", "doublemad", 3 if quick else 4, a))
+        for lm in ("mean", "median"):
+            for sm in ("std", "mad", "iqr", "sn", "qn", "gapper", "diffcov"):
+                items.append(("zequiv", lm, sm, nq, a))
+        items.append(("zequiv", "median", "doublemad", 3 if quick else 4, a))
     R.bounds.update(dict(shapes=[list(s) for s in shapes], methods="scale: std, iqr, mad, sn, qn, gapper, diffcov; loc: mean, median; z-score: loc x scale incl. 'norm'",
                          axes="None, 0, 1 (and negative / tuple axes for apply_along_axes)"))
-    R.assume("np.median/percentile/mean/std/partition/sort/cov are trusted: each is an uninterpreted function of the ordered lane it is applied to",
-             "np.isclose(s, 0) <=> |s| <= 1e-8", "exact arithmetic for the elementwise part")
-    R.out_of_claim("NOT DECIDED: affine equivariance of the estimators (sorting-network encodings of MAD/Sn/Qn at lane length 8: z3 unknown after 120 s)",
-                   "biweight (astropy internals) and doublemad (NaN masking)", "finiteness under float32 overflow", "lane lengths are those of the listed shapes")
+    R.bounds.update(dict(equivariance=dict(a=[f"{n}/{d}" for n, d in avals], lane_length=nq, lane_length_doublemad=3 if quick else 4, b="symbolic real", data="symbolic reals")))
+    R.assume("np.median/percentile/mean/std/partition/sort/cov/sqrt are trusted: each is an uninterpreted function of the ordered lane it is applied to",
+             "order-statistic contract (instantiated for every pair of applications, see contract_instances): median/mean(c*v+d) = c*median/mean(v)+d; "
+             "std(c*v+d) = |c| std(v); percentile_q and the k-th order statistic commute with c*v+d for c>0 and map to percentile_(100-q) / the (n-1-k)-th for c<0; "
+             "cov(c*u, c*v) = c^2 cov(u,v); sqrt(c^2 t) = |c| sqrt(t); min <= median, mean <= max",
+             "np.isclose(s, 0) <=> |s| <= 1e-8", "exact arithmetic for the elementwise part",
+             "equivariance: every scale estimate tested with np.isclose(.,0) is exactly 0 or at least 1e-5 in magnitude (for x and for a*x+b)",
+             "z-score equivariance: the scale estimate of x is not degenerate (no unit-scale fallback); 'norm' (estimator switched off) is not equivariant by construction and not claimed")
+    R.out_of_claim("biweight (astropy internals)", "finiteness under float32 overflow", "the multiplier a ranges over the listed rationals, not over all reals in [1e-2, 1e2]",
+                   "lane lengths are those of the listed shapes")
     chunks = [items[i::14] for i in range(14)]
     parts = R.pmap(batch, chunks)
     R.vacuity_witness("c15", sum(p.reached for p in parts) > 0)
